@@ -25,7 +25,8 @@ TECHNIQUE = ('Hypothesis-generated package trees x every dotted name present or 
 LEVEL_TEXT = ("Generated directory trees (nested packages, modules, __main__.py files, directories without __init__.py at the "
               "top, in the middle of a chain and as a leaf, module + package and module + plain directory of one name, "
               "extension-module files next to or instead of a source file, names with underscores and digits; optionally a "
-              "second search root with disjoint names before or after) and every dotted name that exists in them in any sense "
+              "second search root with disjoint names before or after; optionally the search root is itself a package directory; "
+              "optionally the module's directory is already on sys.path when it is imported by path) and every dotted name that exists in them in any sense "
               "plus typos, modules used as packages and names below plain directories: modname_to_modpath must return what "
               "the interpreter's FileFinder resolves (or None exactly when it finds nothing), in both hide_init modes; the "
               "path must convert back to the name; split_modpath must give (root, relative path); importing importable leaves by path (index 0 and -1; modules that import cleanly, import a sibling "
@@ -106,7 +107,7 @@ def tree_case(D):
             sibling.append([f, os.path.basename(D.choice(sibs))[:-3]])
     second = D.choice(['none', 'none', 'before', 'after'])
     return {'tree': {'top': 't', 'dirs': dirs, 'files': files}, 'raising': raising, 'sibling': sibling,
-            'second_root': second, 'index': D.choice([-1, 0])}
+            'second_root': second, 'index': D.choice([-1, 0]), 'root_has_init': D.chance(1, 6), 'root_on_path': D.chance(1, 4)}
 
 
 def candidate_names(tree):
@@ -161,6 +162,12 @@ def check_case(case, ctx):
                 return "MARK = {!r}\nfrom . import {} as _sib\n".format(rel, sibling[rel])
             return 'MARK = {!r}\n'.format(rel)
         trees.write_tree(tree, root, content)
+        root_has_init = bool(case.get('root_has_init'))
+        if root_has_init:
+            # the search directory is itself a package directory (a tests/ folder with __init__.py on sys.path): the
+            # interpreter does not care; only the resolution clause is asserted for such roots
+            with open(os.path.join(root, '__init__.py'), 'w') as f:
+                f.write('')
         # the second root only holds names disjoint from the first
         with open(os.path.join(other, 'unrelated_mod_zz.py'), 'w') as f:
             f.write('MARK = 0\n')
@@ -212,6 +219,8 @@ def check_case(case, ctx):
             if got_d is None or not _same(got_d, exp_d):
                 raise Violation('wrong_path_hide_init:' + _shape(tree, name),
                                 'modname_to_modpath(hide_init=True) -> {} expected {}; {}'.format(got_d, exp_d, where))
+            if root_has_init:
+                continue
             # path -> name
             for p in (got_f, got_d):
                 back = utils.modpath_to_modname(p)
@@ -232,6 +241,10 @@ def check_case(case, ctx):
                 if rel != exp_rel:
                     raise Violation('split_rel:' + _shape(tree, name),
                                     'split_modpath({}) -> relative part {!r} expected {!r}; {}'.format(p, rel, exp_rel, where))
+        if root_has_init:
+            if ctx is not None:
+                ctx.tag('root_is_package_dir')
+            return
         # every python file: split gives the directory that must be on the path
         for rel in _py_files(tree):
             path = os.path.join(root, *rel.split('/'))
@@ -329,6 +342,10 @@ def _check_imports(case, tree, root, roots, ctx):
                 stem = sp[:-3]
                 if sp in raising or any(stem + e in tree['files'] for e in mach.EXTENSION_SUFFIXES):
                     will_raise = True     # the sibling raises, or is shadowed by an (empty, unloadable) extension file
+        on_path = bool(case.get('root_on_path'))
+        if on_path:
+            # the directory is already a search path entry (at the front): it must still be exactly there afterwards
+            sys.path.insert(0, sdir)
         before_obj = sys.path
         before = list(sys.path)
         err = None
@@ -342,15 +359,20 @@ def _check_imports(case, tree, root, roots, ctx):
             after_obj, after = sys.path, list(sys.path)
             sys.path = before_obj
             sys.path[:] = before
+            if on_path:
+                sys.path.remove(sdir)
             sandbox.purge_modules([top])
         done += 1
         if ctx is not None:
             ctx.count()
             ctx.tag('import:raises' if will_raise else 'import:ok')
+            if on_path:
+                ctx.tag('import:dir_already_on_path')
         if after_obj is not before_obj or after != before:
             raise Violation('sys_path_changed:' + ('raising' if will_raise else 'ok'),
-                            'sys.path differs after import_module_from_path({}, index={}): added {} removed {}; tree={}'.format(
-                                rel, index, [p for p in after if p not in before], [p for p in before if p not in after], tree))
+                            'sys.path differs after import_module_from_path({}, index={}): added {} removed {}{}; tree={}'.format(
+                                rel, index, [p for p in after if p not in before], [p for p in before if p not in after],
+                                ' (same entries, different order)' if sorted(after) == sorted(before) else '', tree))
         if will_raise:
             if err is None:
                 raise Violation('import_should_fail', 'import of {} returned {} although the module raises'.format(rel, mod))
@@ -418,5 +440,5 @@ def selftest():
 
 
 def jobs(tier):
-    per = 60 if tier == 'quick' else 1500
+    per = 300 if tier == 'quick' else 3000
     return [('hyp_trees#%d' % s, 'hyp_trees', dict(n_examples=per)) for s in range(16)]
